@@ -318,3 +318,32 @@ def campaign(ctx):
         if r["fails"]:
             ctx.fail_all(with_features(case, r["fails"]), case)
     ctx.run_given(case_strategy(), body, max_examples=ctx.n(1200, 15000))
+    # seed-independent slice: ONE field reachable under two names, both given - every declared spelling x where the
+    # case-insensitivity is declared x every spelling and order of the two keys x conflicting / equal-but-distinct values
+    if ctx.shard == 0:
+        n = 0
+        for name in ("a", "aX", "Bee"):
+            for ci in ("field", "class", None):
+                for second in ("login", "Login"):
+                    for ignore in (False, True):
+                        for t in ("str", "int"):
+                            f = {"alias_from": [second], "default": {"v": 0 if t == "int" else ""}}
+                            if ci == "field":
+                                f["case_insensitive"] = True
+                            o = {"ignore_alias_conflicts": True} if ignore else {}
+                            if ci == "class":
+                                o["case_insensitive"] = True
+                            d = {"name": "G6", "base": "schema", "fields": [{"name": name, "type": {"k": "leaf", "o": t}, "f": f}]}
+                            if o:
+                                d["options"] = o
+                            for k1 in sorted({name, name.lower(), name.upper()}):
+                                for k2 in sorted({second, second.lower(), second.upper()}):
+                                    for v1, v2 in ((1, 2), (1, True), (True, 1), ("x", "y")):
+                                        for pairs in ([[k1, v1], [k2, v2]], [[k2, v2], [k1, v1]]):
+                                            n += 1
+                                            ctx.ev()
+                                            try:
+                                                body({"decl": d, "input": {"t": "dict", "v": pairs}})
+                                            except HarnessError:
+                                                ctx.label("grid_case_refused")
+        ctx.extra["two_names_grid_cases"] = n
